@@ -186,7 +186,7 @@ def saveNeeds (o : Oracle) (s : Schema) (data : List (List Val)) : List String :
 
 def readNeeds (o : Oracle) (txt : Str) : List String :=
   let lines := splitLines (universalNewlines txt)
-  let (y, c) := fenceSplit lines false
+  let (y, c) := fenceSplit lines false false
   match parseHeader y with
   | .ok ⟨some [d], some _, some fs⟩ =>
     match Csv.readRows d c with
